@@ -99,6 +99,23 @@ func TestC07_Fallback(t *testing.T) {
 			db = gen.Load(t, cmds)
 			q, qc = word, "filtered-lexical"
 		}
+		reindexed := false
+		if len(cmds) > 0 && len(cmds) <= 80 && rapid.IntRange(0, 5).Draw(t, "same-size-reindex") == 0 {
+			// the database held as many OTHER entries, was searched there (typo fallback included), then
+			// its entries were overwritten in place and the index rebuilt with the exported
+			// BuildUniversalIndex ("call after loading/merging commands"): the fallback reads the present texts
+			old := make([]database.Command, len(cmds))
+			for i := range old {
+				old[i] = gen.Command(gen.CmdOpts{Platforms: true}).Draw(t, "old-entry")
+			}
+			db = gen.Load(t, old)
+			for _, wq := range []string{"zzqq", q, "find files"} {
+				db.SearchUniversal(wq, database.SearchOptions{Limit: 5, UseFuzzy: true, AllPlatforms: true, UseNLP: rapid.Bool().Draw(t, "old-nlp")})
+			}
+			copy(db.Commands, gen.Load(t, cmds).Commands)
+			db.BuildUniversalIndex()
+			reindexed = true
+		}
 		tr := true
 		opt := gen.Options(t, gen.OptSpec{N: len(cmds), BigLimit: true, FixFuzzy: &tr, Thresholds: []int{0, 0, -30, -100, 5, 40, 200, math.MaxInt, math.MaxInt - 1, math.MaxInt - 99, math.MaxInt - 100, math.MinInt, math.MinInt + 100, 1 << 40}})
 		if rapid.Bool().Draw(t, "open-filters") {
@@ -138,6 +155,9 @@ func TestC07_Fallback(t *testing.T) {
 		}
 		if warmed > 0 {
 			labels = append(labels, "warmed-database")
+		}
+		if reindexed {
+			labels = append(labels, "rewritten-in-place-and-reindexed")
 		}
 		if len(rOff) > 0 {
 			a, b := rank(db, rOff), rank(db, rOn)
